@@ -1,4 +1,5 @@
 import Fuota.Lemmas.RefineAbs
+import Fuota.Lemmas.NoPanicFs
 /-!
 # `start_update` on a device without armed injection establishes the session invariant
 -/
@@ -109,6 +110,27 @@ theorem loadHeadersFrom_run (S : Nat) (d : Dev) (hG : Good d) : ∀ (is : List N
     have hr := readTo_run hG (i * S) Consts.SLOT_HEADER_SIZE (h i List.mem_cons_self)
     unfold loadHeadersFrom loadHeaderAt
     simp only [run_bind, hr, run_pure, hrun]
+
+/-- reading all headers of a device that contains all slots returns the parsed headers -/
+theorem loadHeaders_hdrs_run (nslots S : Nat) {d : Dev} (hG : Good d) (hS : 28 ≤ S)
+    (hin : nslots * S ≤ d.flash.size) :
+    (loadHeaders nslots S).run d = (.ok (NoPanic.hdrs d.flash nslots S), d) := by
+  have key : ∀ is : List Nat, (∀ i ∈ is, i < nslots) →
+      (loadHeadersFrom S is).run d = (.ok (is.map fun i => NoPanic.hdrAt d.flash (i * S)), d) := by
+    intro is
+    induction is with
+    | nil => intro _; rfl
+    | cons i is ih =>
+      intro h
+      have hi := h i List.mem_cons_self
+      have hb : i * S + 28 ≤ d.flash.size := by
+        have : (i + 1) * S ≤ nslots * S := Nat.mul_le_mul_right _ hi
+        rw [Nat.add_mul] at this; omega
+      have hr := readTo_run hG (i * S) Consts.SLOT_HEADER_SIZE hb
+      unfold loadHeadersFrom loadHeaderAt
+      simp only [run_bind, hr, run_pure, ih (fun j hj => h j (List.mem_cons_of_mem _ hj))]
+      rfl
+  exact key _ (fun i hi => List.mem_range.1 hi)
 
 /-! ## the slot pair `alloc_slotpair` chooses -/
 
@@ -290,6 +312,9 @@ theorem setLayout_run (s : Slot) (nseg segsz : Nat) {d0 d : Dev} (hk : Keeps d0 
 theorem allocSlotpair_run (nslots S : Nat) (d : Dev) (hG : Good d) (hS : 28 ≤ S)
     (hdev : nslots * S ≤ d.flash.size) (hb0 : 0 < d.flash.block) (hdiv : S % d.flash.block = 0) (hn : 2 ≤ nslots) :
     ∃ a b sa sb d2, a < nslots ∧ b < nslots ∧ a ≠ b ∧ Fresh (a * S) (b * S) S d d2 ∧
+      choosePair nslots (NoPanic.hdrs d.flash nslots S) = .ok (a, b, sa, sb) ∧
+      (∀ x, a * S ≤ x → x < a * S + S → d2.flash.byte x = 0xFF) ∧
+      (∀ x, b * S ≤ x → x < b * S + S → d2.flash.byte x = 0xFF) ∧
       (allocSlotpair nslots S).run d =
         (.ok ({ idx := a, size := S }, { idx := b, size := S }),
          (d2.prog (a * S + 4) (writeU32 sa)).prog (b * S + 4) (writeU32 sb)) := by
@@ -297,9 +322,9 @@ theorem allocSlotpair_run (nslots S : Nat) (d : Dev) (hG : Good d) (hS : 28 ≤ 
     intro i hi
     have : (i + 1) * S ≤ nslots * S := Nat.mul_le_mul_right _ hi
     rw [Nat.add_mul] at this; omega
-  obtain ⟨hs, hrunH, hlenH⟩ := loadHeadersFrom_run S d hG (List.range nslots) (fun i hi => by
-    have := hslot i (List.mem_range.1 hi); omega)
-  obtain ⟨a, b, sa, sb, hcp, ha, hb, hab⟩ := choosePair_valid nslots hs hn (by simpa using hlenH)
+  have hrunH := loadHeaders_hdrs_run nslots S hG hS hdev
+  obtain ⟨a, b, sa, sb, hcp, ha, hb, hab⟩ := choosePair_valid nslots (NoPanic.hdrs d.flash nslots S) hn
+    (by simp [NoPanic.hdrs])
   obtain ⟨d1, hr1, k1, ff1, fr1⟩ := clear_run { idx := b, size := S } d hG hb0 hdiv (hslot b hb)
   obtain ⟨d2, hr2, k2, ff2, fr2⟩ := clear_run { idx := a, size := S } d1 k1.good (by rw [k1.block]; exact hb0)
     (by rw [k1.block]; exact hdiv) (by rw [k1.size]; exact hslot a ha)
@@ -317,10 +342,11 @@ theorem allocSlotpair_run (nslots S : Nat) (d : Dev) (hG : Good d) (hS : 28 ≤ 
     rw [fr2 x (by omega)]
     exact ff1 x (by omega) h2
   have F3 := F2.prog hdis hS (a * S + 4) (writeU32 sa) (Or.inl ⟨by omega, by simp [writeU32]⟩)
-  refine ⟨a, b, sa, sb, d2, ha, hb, hab, F2, ?_⟩
+  refine ⟨a, b, sa, sb, d2, ha, hb, hab, F2, hcp, fun x h1 h2 => ff2 x h1 h2, fun x h1 h2 => ?_, ?_⟩
+  · rw [fr2 x (by omega)]; exact ff1 x h1 h2
   have w1 := writeWord_run' { idx := a, size := S } 4 sa F2.keeps (by show a * S + 4 + 4 ≤ _; omega)
   have w2 := writeWord_run' { idx := b, size := S } 4 sb F3.keeps (by show b * S + 4 + 4 ≤ _; omega)
-  unfold allocSlotpair loadHeaders
+  unfold allocSlotpair
   rw [run_bind, hrunH]
   simp only [hcp]
   rw [run_bind, hr1]
@@ -354,22 +380,32 @@ theorem run_bind_ok {α β : Type} {x : M α} {f : α → M β} {d d' : Dev} {a 
     (x >>= f).run d = (f a).run d' := by
   rw [run_bind, h]
 
-/-- **`start_update` establishes the session invariant.** On a device without armed injection whose bytes are
-bytes, with at least two slots of `S` bytes inside the device and `S` a multiple of the (non-zero) erase-block size,
-for an accepted geometry: `start_update` succeeds, and the updater and device it leaves behind satisfy `Lawful` with
-nothing received yet (`l = 0`, `done = 0`, `used = 0`), the announced fragment count and size, and the capacity the
-binary search computes. -/
-theorem startUpdate_lawful (nslots S sz n : Nat) (d : Dev) (hG : Good d) (hwf : WF d.flash)
+/-- **`start_update`, explicitly.** On a device without armed injection with at least two slots inside the device and
+the slot size a multiple of the erase-block size, for an accepted geometry: the pair `(a, b)` and the sequence numbers
+`choosePair` picks from the parsed headers; both slots are erased completely (device `d2`), then eight header words are
+programmed (device `d10`); beyond the 28 header bytes both slots are still erased. -/
+theorem startUpdate_explicit (nslots S sz n : Nat) (d : Dev) (hG : Good d)
     (hacc : reasonablySized S sz n = .ok ()) (hdev : nslots * S ≤ d.flash.size) (hb0 : 0 < d.flash.block)
     (hdiv : S % d.flash.block = 0) (hn : 2 ≤ nslots) :
-    ∃ u0 d0, (startUpdate nslots S sz n).run d = (.ok u0, d0) ∧ Lawful u0 d0 ∧
-      u0.l = 0 ∧ u0.done = 0 ∧ u0.used = 0 ∧ u0.n = n ∧ u0.bs = sz ∧ u0.maxL = capacity S sz ∧
-      u0.fw.size = S ∧ u0.par.size = S ∧ u0.fw.idx < nslots ∧ u0.par.idx < nslots := by
+    ∃ a b sa sb d2 d10, a < nslots ∧ b < nslots ∧ a ≠ b ∧
+      choosePair nslots (NoPanic.hdrs d.flash nslots S) = .ok (a, b, sa, sb) ∧
+      Keeps d d2 ∧
+      (∀ x, a * S ≤ x → x < a * S + S → d2.flash.byte x = 0xFF) ∧
+      (∀ x, b * S ≤ x → x < b * S + S → d2.flash.byte x = 0xFF) ∧
+      d10 = ((((((((d2.prog (a * S + 4) (writeU32 sa)).prog (b * S + 4) (writeU32 sb)).prog (a * S + 0)
+          (writeU32 (encKind C .firmware))).prog (a * S + 12) (writeU32 n)).prog (a * S + 8) (writeU32 sz)).prog
+          (b * S + 0) (writeU32 (encKind C .parity))).prog (b * S + 12) (writeU32 (capacity S sz))).prog
+          (b * S + 8) (writeU32 sz)) ∧
+      Fresh (a * S) (b * S) S d d10 ∧
+      (startUpdate nslots S sz n).run d =
+        (.ok (Upd.mk (Slot.mk a S (if sz = 0 then none else some sz)) (Slot.mk b S (if sz = 0 then none else some sz))
+          n 0 sz 0 0 (capacity S sz) (capacity S sz * sz) false), d10) := by
   obtain ⟨a1, a2, a3, a4, a5⟩ := reasonablySized_ok hacc
   have hS : 17408 < S := by
     have : 1 ≤ sz * n := Nat.mul_le_mul a1 a3
     omega
-  obtain ⟨a, b, sa, sb, d2, ha, hb, hab, F2, hralloc⟩ := allocSlotpair_run nslots S d hG (by omega) hdev hb0 hdiv hn
+  obtain ⟨a, b, sa, sb, d2, ha, hb, hab, F2, hcp, erA, erB, hralloc⟩ :=
+    allocSlotpair_run nslots S d hG (by omega) hdev hb0 hdiv hn
   have hslot : ∀ i, i < nslots → i * S + S ≤ d.flash.size := by
     intro i hi
     have : (i + 1) * S ≤ nslots * S := Nat.mul_le_mul_right _ hi
@@ -396,7 +432,7 @@ theorem startUpdate_lawful (nslots S sz n : Nat) (d : Dev) (hG : Good d) (hwf : 
     exact Nat.le_trans (Nat.min_le_left _ _) hcapfit
   have F3 := F2.prog hdis (by omega) (a * S + 4) (writeU32 sa) (Or.inl ⟨by omega, by simp [writeU32]⟩)
   have F4 := F3.prog hdis (by omega) (b * S + 4) (writeU32 sb) (Or.inr ⟨by omega, by simp [writeU32]⟩)
-  generalize (d2.prog (a * S + 4) (writeU32 sa)).prog (b * S + 4) (writeU32 sb) = d4 at F4 hralloc
+  generalize hd4 : (d2.prog (a * S + 4) (writeU32 sa)).prog (b * S + 4) (writeU32 sb) = d4 at F4 hralloc
   have F5 := F4.prog hdis (by omega) (a * S + 0) (writeU32 (encKind C .firmware))
     (Or.inl ⟨by omega, by simp [writeU32]⟩)
   have F6 := F5.prog hdis (by omega) (a * S + 12) (writeU32 n) (Or.inl ⟨by omega, by simp [writeU32]⟩)
@@ -404,7 +440,7 @@ theorem startUpdate_lawful (nslots S sz n : Nat) (d : Dev) (hG : Good d) (hwf : 
   have w5 := writeWord_run' { idx := a, size := S } 0 (encKind C .firmware) F4.keeps
     (by show a * S + 0 + 4 ≤ _; omega)
   have w67 := setLayout_run { idx := a, size := S } n sz F5.keeps hsat1 (by show a * S + 16 ≤ _; omega)
-  generalize ((d4.prog (a * S + 0) (writeU32 (encKind C .firmware))).prog (a * S + 12) (writeU32 n)).prog
+  generalize hd7 : ((d4.prog (a * S + 0) (writeU32 (encKind C .firmware))).prog (a * S + 12) (writeU32 n)).prog
     (a * S + 8) (writeU32 sz) = d7 at F7 w67
   have F8 := F7.prog hdis (by omega) (b * S + 0) (writeU32 (encKind C .parity))
     (Or.inr ⟨by omega, by simp [writeU32]⟩)
@@ -415,7 +451,7 @@ theorem startUpdate_lawful (nslots S sz n : Nat) (d : Dev) (hG : Good d) (hwf : 
     (by show b * S + 0 + 4 ≤ _; omega)
   have w910 := setLayout_run { idx := b, size := S } (capacity S sz) sz F8.keeps hsat2
     (by show b * S + 16 ≤ _; omega)
-  generalize ((d7.prog (b * S + 0) (writeU32 (encKind C .parity))).prog (b * S + 12)
+  generalize hd10 : ((d7.prog (b * S + 0) (writeU32 (encKind C .parity))).prog (b * S + 12)
     (writeU32 (capacity S sz))).prog (b * S + 8) (writeU32 sz) = d10 at F10 w910
   have w5' : (Slot.setKind { idx := a, size := S } .firmware).run d4 =
       (.ok (), d4.prog (a * S + 0) (writeU32 (encKind C .firmware))) := w5
@@ -434,6 +470,31 @@ theorem startUpdate_lawful (nslots S sz n : Nat) (d : Dev) (hG : Good d) (hwf : 
       (.ok (Upd.mk (Slot.mk a S (if sz = 0 then none else some sz)) (Slot.mk b S (if sz = 0 then none else some sz))
         n 0 sz 0 0 (capacity S sz) (capacity S sz * sz) false), d10) := by
     exact (startUpdate_run_of nslots S sz n d d4 _ _ hacc hralloc).trans htail
+  exact ⟨a, b, sa, sb, d2, d10, ha, hb, hab, hcp, F2.keeps, erA, erB, by rw [← hd10, ← hd7, ← hd4], F10, hrun⟩
+
+/-- **`start_update` establishes the session invariant.** On a device without armed injection whose bytes are
+bytes, with at least two slots of `S` bytes inside the device and `S` a multiple of the (non-zero) erase-block size,
+for an accepted geometry: `start_update` succeeds, and the updater and device it leaves behind satisfy `Lawful` with
+nothing received yet (`l = 0`, `done = 0`, `used = 0`), the announced fragment count and size, and the capacity the
+binary search computes. -/
+theorem startUpdate_lawful (nslots S sz n : Nat) (d : Dev) (hG : Good d) (hwf : WF d.flash)
+    (hacc : reasonablySized S sz n = .ok ()) (hdev : nslots * S ≤ d.flash.size) (hb0 : 0 < d.flash.block)
+    (hdiv : S % d.flash.block = 0) (hn : 2 ≤ nslots) :
+    ∃ u0 d0, (startUpdate nslots S sz n).run d = (.ok u0, d0) ∧ Lawful u0 d0 ∧
+      u0.l = 0 ∧ u0.done = 0 ∧ u0.used = 0 ∧ u0.n = n ∧ u0.bs = sz ∧ u0.maxL = capacity S sz ∧
+      u0.fw.size = S ∧ u0.par.size = S ∧ u0.fw.idx < nslots ∧ u0.par.idx < nslots := by
+  obtain ⟨a1, a2, a3, a4, a5⟩ := reasonablySized_ok hacc
+  have hS : 17408 < S := by
+    have : 1 ≤ sz * n := Nat.mul_le_mul a1 a3
+    omega
+  obtain ⟨a, b, sa, sb, d2, d10, ha, hb, hab, _, _, _, _, _, F10, hrun⟩ :=
+    startUpdate_explicit nslots S sz n d hG hacc hdev hb0 hdiv hn
+  have hslot : ∀ i, i < nslots → i * S + S ≤ d.flash.size := by
+    intro i hi
+    have : (i + 1) * S ≤ nslots * S := Nat.mul_le_mul_right _ hi
+    rw [Nat.add_mul] at this; omega
+  have hA := hslot a ha
+  have hB := hslot b hb
   refine ⟨_, _, hrun, ?_, rfl, rfl, rfl, rfl, rfl, rfl, rfl, rfl, ha, hb⟩
   have hsz0 : ¬ sz = 0 := by omega
   have g : Geo (Upd.mk (Slot.mk a S (if sz = 0 then none else some sz)) (Slot.mk b S (if sz = 0 then none else some sz))
